@@ -40,10 +40,12 @@ class Knobs:
     sdt_in_table: float = 0.0  # D21
     vmerge_continue_val: float = 0.3  # D5
     grid_before: float = 0.05  # D2
+    grid_gaps: float = 0.0  # rows of a random table start / end with a grid gap (w:gridBefore / w:gridAfter); C19 sweep
     checkbox_onoff: float = 0.3  # D4
     ddlist_empty: float = 0.1  # D3
     ddlist_markup: float = 0.3  # D26 (fixed): drop-down entries with & < >
     no_r_namespace: float = 0.08  # D1
+    bare_picture_part: float = 0.04  # a header / footer holding a picture element without any r: attribute, r undeclared
     start_zero: float = 0.1  # D13
     markers_in_link: float = 0.08  # D23
     comment_in_heading: float = 0.5  # D11
@@ -684,12 +686,28 @@ class Gen:
                     rects.append((i, j, 1, 1))
         tbl = self.E("w:tbl", {}, self.E("w:tblPr", {}, self.E("w:tblStyle", {"w:val": "TableGrid"})),
                      self.E("w:tblGrid", {}, *[self.E("w:gridCol", {"w:w": "100"}) for _ in range(ncols)]))
+        gaps = self.p(self.k.grid_gaps) and ncols > 1
         for i in range(nrows):
             tr = self.E("w:tr")
-            if self.p(0.2):
-                tr.append(self.E("w:trPr", {}, self.E("w:cantSplit")))
-            j = 0
-            while j < ncols:
+            gb = ga = 0
+            if gaps:
+                # unmerged cells at the start / end of the row are left out: a leading / trailing grid gap
+                # (round-8 seed C19-vmerge-gridspan-slice-copy needs a row above that is stored shorter)
+                while gb < ncols - 1 and rects[owner[i][gb]][2:] == (1, 1) and self.p(0.4):
+                    gb += 1
+                while ga < ncols - 1 - gb and rects[owner[i][ncols - 1 - ga]][2:] == (1, 1) and self.p(0.3):
+                    ga += 1
+            trpr = []
+            if gb:
+                trpr.append(self.E("w:gridBefore", {"w:val": str(gb)}))
+            if ga:
+                trpr.append(self.E("w:gridAfter", {"w:val": str(ga)}))
+            if gb or ga:
+                self.feat("grid_gap")
+            if trpr or self.p(0.2):
+                tr.append(self.E("w:trPr", {}, *(trpr + ([self.E("w:cantSplit")] if self.p(0.5) else []))))
+            j = gb
+            while j < ncols - ga:
                 r0, c0, h, w = rects[owner[i][j]]
                 tcpr = []
                 if self.p(0.4):
@@ -807,6 +825,22 @@ class Gen:
                 body.append(self.E("w:sectPr", {}, self.E("w:pgSz", {"w:w": "1", "w:h": "1"})))
             root.append(body)
             self.trivia(body)
+        elif self.p(self.k.bare_picture_part):
+            # a part whose only picture carries no relationship attribute (r:id of v:imagedata and r:embed of
+            # a:blip are optional) and which therefore need not declare the r prefix: the picture is skipped
+            # (round-8 seed C11-image-marker-helper-unguarded-qn)
+            if self.p(0.5):
+                pic = self.E("w:pict", {}, self.E("v:shape", {"id": "s1", "style": "width:1pt"},
+                                                   self.E("v:imagedata", {"croptop": "1f", "o:title": ""})))
+            else:
+                pic = self.E("w:drawing", {}, self.E("wp:inline", {}, self.E("wp:extent", {"cx": "1", "cy": "1"}),
+                             self.E("wp:docPr", {"id": "1", "name": "Picture 1"}),
+                             self.E("a:graphic", {}, self.E("a:graphicData", {"uri": self.ns["pic"]},
+                                    self.E("pic:pic", {}, self.E("pic:blipFill", {}, self.E("a:blip")))))))
+            root.append(self.E("w:p", {}, self.E("w:r", {}, self.E("w:t", {}, text=self.text() or "x"), pic)))
+            etree.cleanup_namespaces(root)
+            self.feat("picture_without_r_namespace")
+            return root
         else:
             for b in self.blocks(self.r.randint(1, 3)):
                 root.append(b)
